@@ -154,7 +154,14 @@ class Xunitary(Compiler):
 
         # merge S2gates
         if len(regrefs) > half_n_modes:
-            for mode, indices in list_duplicates(regrefs):
+            for mode, _ in list(list_duplicates(regrefs)):
+                # locations of the S2gates acting on this pair in the *current* list; the locations
+                # in ``regrefs`` become stale as soon as a previous pair has been merged
+                indices = [
+                    idx
+                    for idx, cmd in enumerate(B)
+                    if (cmd.reg[0].ind, cmd.reg[1].ind) == mode
+                ]
                 r = 0
                 phi = 0
 
